@@ -9,7 +9,7 @@ requires), all present arbitrary dat_r. Per-cycle oracle built from memory_map.w
 import random
 
 from vmon import env  # noqa: F401
-from vmon.simkit import Top, Mon, simulate, bits, biased_bits
+from vmon.simkit import Top, Mon, simulate, bits, biased_bits, spell_features
 
 from amaranth import Value
 from amaranth_soc import wishbone
@@ -53,7 +53,8 @@ def run_case(case):
     gbits = (dw // gran).bit_length() - 1
     map_aw = max(1, aw + gbits)
     dfeat = set(case["features"])
-    dec = wishbone.Decoder(addr_width=aw, data_width=dw, granularity=gran, features=dfeat, alignment=case["al"])
+    dec = wishbone.Decoder(addr_width=aw, data_width=dw, granularity=gran, features=spell_features(rng, dfeat),
+                           alignment=case["al"])
     subs = []
     for i in range(case["nsubs"]):
         sparse = rng.random() < 0.3 and gbits > 0
@@ -69,7 +70,8 @@ def run_case(case):
             s_map_aw = max(1, s_aw + gbits)
         if s_map_aw >= map_aw and not (s_map_aw == map_aw and case["nsubs"] == 1):
             continue
-        sub = wishbone.Interface(addr_width=s_aw, data_width=s_dw, granularity=s_gran, features=sfeat, path=(f"s{i}",))
+        sub = wishbone.Interface(addr_width=s_aw, data_width=s_dw, granularity=s_gran, features=spell_features(rng, sfeat),
+                                 path=(f"s{i}",))
         sub.memory_map = MemoryMap(addr_width=s_map_aw, data_width=s_gran)
         if rng.random() < 0.3:
             try:
